@@ -9,7 +9,7 @@ from . import ftlib as F
 
 ID = "C08"
 CHECKER = "chk_filter"
-THEOREMS = ['C08_split_core', 'C08_split_variants', 'C08_unc_quadrature_core', 'C08_unc_quadrature_variants', 'C08_removed_is_lowr_transform', 'C08_beyond_cutoff_irrelevant', 'C08_beyond_cutoff_irrelevant_variants', 'C08_beyond_cutoff_irrelevant_raw', 'C08_beyond_cutoff_irrelevant_wrap_real', 'C08_zero_lowr_untouched', 'C08_returned_is_transform_of_corrected', 'C08_returned_is_transform_of_corrected_S', 'C08_returned_is_transform_of_corrected_all', 'C08g_removed_is_cropped_lowr_transform', 'C08g_removed_is_lowr_transform', 'C08g_full_range_ok_of_order', 'C08g_beyond_cutoff_irrelevant', 'C08g_beyond_cutoff_irrelevant_variants', 'C08g_returned_is_transform_of_corrected', 'C08g_corrected_is_difference', 'C08g_variant_normal_form', 'C08g_variant_normal_form_binary64', 'C08g_beyond_cutoff_irrelevant_binary64']
+THEOREMS = ['C08_split_core', 'C08_split_variants', 'C08_unc_quadrature_core', 'C08_unc_quadrature_variants', 'C08_removed_is_lowr_transform', 'C08_beyond_cutoff_irrelevant', 'C08_beyond_cutoff_irrelevant_variants', 'C08_beyond_cutoff_irrelevant_raw', 'C08_beyond_cutoff_irrelevant_wrap_real', 'C08_zero_lowr_untouched', 'C08_returned_is_transform_of_corrected', 'C08_returned_is_transform_of_corrected_S', 'C08_returned_is_transform_of_corrected_all', 'C08g_removed_is_cropped_lowr_transform', 'C08g_removed_is_lowr_transform', 'C08g_full_range_ok_of_order', 'C08g_beyond_cutoff_irrelevant', 'C08g_beyond_cutoff_irrelevant_variants', 'C08g_returned_is_transform_of_corrected', 'C08g_corrected_is_difference', 'C08g_variant_normal_form', 'C08g_variant_normal_form_binary64', 'C08g_beyond_cutoff_irrelevant_binary64', 'C08o_omitted_term_in_G_to_F', 'C08o_omitted_term_in_g_to_F', 'C08o_first_transformed_value', 'C08o_removed_omitted_term']
 RULE = ("all 12 variants x cutoffs on / between grid points / beyond the grid / below the second point, with and without uncertainties, "
         "sampled physical (g, Q[S-1]) pairs converted to each variant's functions; the full 9-tuple is compared; "
         "non-trivial = removed component non-zero; distinct by input hash")
